@@ -36,11 +36,12 @@ type c11Result struct {
 }
 
 type c11Run struct {
-	Depth  string `json:"depth"` // "" | sub | sub/deep
-	Build  string `json:"build"` // plain | trimpath-flag | trimpath-goflags
-	Chdir  bool   `json:"chdir,omitempty"`
-	GOROOT bool   `json:"goroot,omitempty"`
-	Combo  *int   `json:"combo,omitempty"` // replay: report only this combination
+	Depth   string `json:"depth"` // "" | sub | sub/deep
+	Build   string `json:"build"` // plain | trimpath-flag | trimpath-goflags
+	Chdir   bool   `json:"chdir,omitempty"`
+	GOROOT  bool   `json:"goroot,omitempty"`
+	Goflags string `json:"goflags,omitempty"` // GOFLAGS in the environment of the test binary
+	Combo   *int   `json:"combo,omitempty"`   // replay: report only this combination
 }
 
 func c11Tmpl(name string) string { return e3Template(filepath.Join("c11", name)) }
@@ -92,6 +93,8 @@ func c11Expected(pkgDir, absDir string, r c11Result) string {
 	switch {
 	case dir == "ABS":
 		dir = absDir
+	case dir == "EMPTY":
+		dir = pkgDir // Dir(""): relative and empty, i.e. the test file's own directory
 	case dir == "":
 		dir = filepath.Join(pkgDir, "__snapshots__")
 	default:
@@ -155,9 +158,16 @@ func runC11(tier, scratch, replay string, nworkers int) *merged {
 			for _, gr := range []bool{false, true} {
 				all := []c11Run{{Depth: depth, Build: "plain", GOROOT: gr}, {Depth: depth, Build: "plain", Chdir: true, GOROOT: gr},
 					{Depth: depth, Build: "trimpath-flag", GOROOT: gr}, {Depth: depth, Build: "trimpath-goflags", GOROOT: gr}}
+				if !gr {
+					// GOFLAGS that mention -trimpath without enabling it: the build is not trimmed, the working directory is foreign
+					all = append(all, c11Run{Depth: depth, Build: "plain", Chdir: true, Goflags: "-mod=mod -trimpath=false"}, c11Run{Depth: depth, Build: "plain", Chdir: true, Goflags: "-trimpath=0 -count=1"})
+				}
 				for i, r := range all {
 					// quick: the full matrix at the module root, a diagonal of it in the nested packages
-					if tier == "quick" && depth != "" && !((depth == "sub") == (i%2 == 0) && gr == (i < 2) || r.Build == "trimpath-flag" && gr) {
+					if tier == "quick" && r.Goflags != "" && !(depth == "" && strings.HasPrefix(r.Goflags, "-mod") || depth == "sub" && strings.HasPrefix(r.Goflags, "-trimpath=0")) {
+						continue
+					}
+					if tier == "quick" && depth != "" && r.Goflags == "" && !((depth == "sub") == (i%2 == 0) && gr == (i < 2) || r.Build == "trimpath-flag" && gr) {
 						continue
 					}
 					runs = append(runs, r)
@@ -247,6 +257,9 @@ func runC11(tier, scratch, replay string, nworkers int) *merged {
 				}
 				if r.Build == "trimpath-goflags" {
 					env = append(env, "GOFLAGS=-trimpath")
+				}
+				if r.Goflags != "" {
+					env = append(env, "GOFLAGS="+r.Goflags)
 				}
 				cmd.Env = env
 				outb, err := cmd.CombinedOutput()
